@@ -6,6 +6,7 @@ CONSTANTS Coef <- C3
  MaxD = 2
  MaxSteps = 3
  SubA <- A2
+ LimC <- L1
  SubB <- S1
 INVARIANT SameValueInv
 INVARIANT TwoEvaluators
